@@ -16,13 +16,12 @@ import vlib
 from props import c11
 
 MC_QUICK = ["Annotate_mc_order_q.cfg"]
-MC_THOROUGH = ["Annotate_mc_order_t.cfg", "Annotate_mc_order_q.cfg"]
-GEN_QUICK = [("OsmHistory_gen_triple_q.cfg", None)]
-GEN_THOROUGH = [("OsmHistory_gen_triple_t.cfg", 1), ("OsmHistory_gen_stamp2_t.cfg", 1)]
+MC_THOROUGH = ["Annotate_mc_order_t.cfg", "Annotate_mc_order_m_t.cfg", "Annotate_mc_order_q.cfg"]
+GEN_QUICK = [("OsmHistory_gen_triple_q.cfg", 2), ("OsmHistory_gen_mixed_q.cfg", 1)]
+GEN_THOROUGH = [("OsmHistory_gen_triple_t.cfg", 1), ("OsmHistory_gen_stamp2_t.cfg", 1), ("OsmHistory_gen_mixed_t.cfg", 2)]
 
 
 def run(ctx):
-    c11.ensure_known(ctx)
     c11.prepare(ctx)
     quick = ctx.quick()
     R = 5 if quick else 30
@@ -42,10 +41,7 @@ def run(ctx):
     try:
         # the dedicated family: equal timestamps, more than a dozen updates per parent
         fam = vlib.tlc_gen(ctx, "OsmHistoryFamily", "OsmHistoryFamily_q.cfg" if quick else "OsmHistoryFamily_t.cfg")
-        fopts = [{"regime": "commit", "eps": 0, "igI": False, "igM": False, "filt": 0},
-                 {"regime": "stamp", "eps": 0, "igI": False, "igM": False, "filt": 0},
-                 {"regime": "stamp", "eps": 1, "igI": True, "igM": True, "filt": 0}]
-        cases = c11.make_cases(ctx, fam, fopts, runs=R, per_history=None if quick else 2, salt=99)
+        cases = c11.make_cases(ctx, fam, c11.FAM_OPTS, runs=R, per_history=2, salt=99)
         vlib.log("  family: %d histories -> %d cases x %d runs" % (len(fam), len(cases), R))
         total += len(cases)
         c11.run_and_judge(ctx, binpath, cases, "c12", chunk=20000)
@@ -57,7 +53,7 @@ def run(ctx):
             vlib.log("  %s: %d histories -> %d cases x %d runs" % (cfg, len(hs), len(cases), Rm))
             total += len(cases)
             c11.run_and_judge(ctx, binpath, cases, "c12", chunk=20000)
-        rc = c11.random_cases(ctx, binpath, 300 if quick else 3000, runs=R, kids=10, vers=6, pars=4)
+        rc = c11.random_cases(ctx, binpath, 400 if quick else 3000, runs=R, kids=10, vers=6, pars=4)
         c11.run_and_judge(ctx, binpath, rc, "c12", chunk=20000)
     finally:
         join()
